@@ -29,6 +29,7 @@ type c16Index struct {
 	moveItem  map[string][]int // label -> [range id, then one id per expanded step]
 	moveRange map[string]int
 	martItem  map[string][]int
+	itemText  map[string][]string // label -> rendered text of each mart item / movement step, by position
 	martRange map[string]int
 	mapItem   map[string]*spec.MapScripts
 	expand    map[string][]string
@@ -52,7 +53,7 @@ func expandToks(toks []string, expand map[string][]string) string {
 func buildC16Index(rp *spec.Program, pr *spec.Printed, expand map[string][]string) *c16Index {
 	ix := &c16Index{pr: pr, expand: expand, multi: map[string][]int{}, cmds: map[string]int{}, labels: map[string]int{}, flagLeaf: map[string]int{}, varLeaf: map[string]int{}, trLeaf: map[string]int{},
 		autoVar: map[string]int{}, switches: map[string]int{}, swNode: map[int]*spec.Switch{}, textItem: map[string]int{}, moveItem: map[string][]int{}, moveRange: map[string]int{},
-		martItem: map[string][]int{}, martRange: map[string]int{}, mapItem: map[string]*spec.MapScripts{}}
+		itemText: map[string][]string{}, martItem: map[string][]int{}, martRange: map[string]int{}, mapItem: map[string]*spec.MapScripts{}}
 	var cond func(c spec.Cond)
 	cond = func(c spec.Cond) {
 		switch x := c.(type) {
@@ -132,6 +133,19 @@ func buildC16Index(rp *spec.Program, pr *spec.Printed, expand map[string][]strin
 		}
 		return out
 	}
+	texts := func(es []*spec.ListElem) []string {
+		var out []string
+		for _, e := range es {
+			if e.Name == "," {
+				continue
+			}
+			n := len(expandSteps([]*spec.ListElem{e}))
+			for i := 0; i < n; i++ {
+				out = append(out, expandToks([]string{e.Name}, expand))
+			}
+		}
+		return out
+	}
 	lm := buildLabelModel(rp)
 	for _, s := range scriptsOf(rp) {
 		blk(s.Body)
@@ -150,6 +164,7 @@ func buildC16Index(rp *spec.Program, pr *spec.Printed, expand map[string][]strin
 					if l, ok := lm.MovesLabel[a]; ok {
 						if _, seen := ix.moveItem[l]; !seen {
 							ix.moveItem[l] = elems(a.Moves)
+							ix.itemText[l] = texts(a.Moves)
 							ix.moveRange[l] = c.ID
 						}
 					}
@@ -166,9 +181,11 @@ func buildC16Index(rp *spec.Program, pr *spec.Printed, expand map[string][]strin
 			ix.textItem[x.Name] = x.ID
 		case *spec.MovementItem:
 			ix.moveItem[x.Name] = elems(x.Steps)
+			ix.itemText[x.Name] = texts(x.Steps)
 			ix.moveRange[x.Name] = x.ID
 		case *spec.MartItem:
 			ix.martItem[x.Name] = elems(x.Items)
+			ix.itemText[x.Name] = texts(x.Items)
 			ix.martRange[x.Name] = x.ID
 		case *spec.MapScripts:
 			ix.mapItem[x.Name] = x
@@ -273,6 +290,21 @@ func c16Consts(k *h.Case, g *spec.Gen, prog *spec.Program) map[string][]string {
 				blk(e.Body)
 				for _, row := range e.Rows {
 					blk(row.Body)
+				}
+			}
+		case *spec.MartItem:
+			// mart items through constants, also constants of several tokens (one `.2byte` line each)
+			for _, e := range x.Items {
+				if e.PS == nil && e.Name != "ITEM_NONE" && e.Name != "," && r.IntN(3) == 0 {
+					name := g.Name("C16ITEM_")
+					val := []string{e.Name}
+					if r.IntN(2) == 0 {
+						val = []string{e.Name, "+", "1"}
+					}
+					expand[name] = val
+					defs = append(defs, &spec.Const{ID: prog.NewID(), Name: name, Value: val})
+					e.Name = "$" + name
+					k.Count("constant_mart_items", 1)
 				}
 			}
 		}
@@ -451,11 +483,12 @@ func runC16(ctx *h.Ctx) int {
 					// a marker between the lines of one text block
 					id, what = ix.textItem[curLabel], "text-continuation"
 				case nx.Op == ".2byte" && ix.martItem[curLabel] != nil:
-					if posInBlock < len(ix.martItem[curLabel]) {
+					// (by position, and only when the line is that item: otherwise the marker cannot be attributed)
+					if posInBlock < len(ix.martItem[curLabel]) && normLine(nx.Args) == normLine(ix.itemText[curLabel][posInBlock]) {
 						id, what = ix.martItem[curLabel][posInBlock], "mart-item"
 					}
 				case ix.moveItem[curLabel] != nil && ix.cmds[nx.Op] == 0:
-					if posInBlock < len(ix.moveItem[curLabel]) {
+					if posInBlock < len(ix.moveItem[curLabel]) && normLine(strings.TrimSpace(nx.Text)) == normLine(ix.itemText[curLabel][posInBlock]) {
 						id, what = ix.moveItem[curLabel][posInBlock], "movement-step"
 					}
 				case nx.Op == "map_script":
